@@ -344,6 +344,7 @@ def add_flt_grids(tag, pix, comp, nch, L, tables, unwind):
     n = L * nch
     grids = [grid(comp, 1, n, 11 + nch)[1:-1], grid(comp, 1, n, 97 + nch)[1:-1]]
     if comp == "f32":
+        grids.pop()
         grids.append("[" + ", ".join(SPECIAL_F32[(i * 3 + nch) % len(SPECIAL_F32)] for i in range(n)) + "]")
     code = FHEAD
     calls = []
@@ -365,12 +366,14 @@ def add_flt_grids(tag, pix, comp, nch, L, tables, unwind):
       "; weights beyond the window's size unused; spare pixel untouched; reads in bounds", P_FLT)
 
 
-TABLES = [("smooth_sharpen", W_SMOOTH_SHARPEN), ("dirty", W_DIRTY), ("huge", W_HUGE)]
-add_flt_grids("i32x1", "I32", "i32", 1, 4, TABLES, 6)
-add_flt_grids("f32x1", "F32", "f32", 1, 10, TABLES + [("nine_taps", W9)], 11)
-add_flt_grids("f32x2", "F32x2", "f32", 2, 4, TABLES, 6)
-add_flt_grids("f32x3", "F32x3", "f32", 3, 4, TABLES, 6)
-add_flt_grids("f32x4", "F32x4", "f32", 4, 4, TABLES, 6)
+# Measured: one kernel invocation on a concrete line costs ~45 s of CBMC time (the float operations on values read back from memory
+# are not constant-folded) and kani-driver memory grows with every invocation: 2 - 4 invocations per harness.
+W_MIX = [(1, [-0.1, 1.2, -0.1]), (0, [0.25, 0.5])]
+add_flt_grids("i32x1", "I32", "i32", 1, 4, [("mix", W_MIX), ("huge", W_HUGE)], 6)
+add_flt_grids("f32x1", "F32", "f32", 1, 10, [("nine_taps", W9)], 11)
+add_flt_grids("f32x2", "F32x2", "f32", 2, 4, [("mix", W_MIX)], 6)
+add_flt_grids("f32x3", "F32x3", "f32", 3, 4, [("mix", W_MIX)], 6)
+add_flt_grids("f32x4", "F32x4", "f32", 4, 4, [("mix", W_MIX)], 6)
 
 # i32x1 with ALL pixel values (measured 584 s on a loaded machine): thorough only
 MODS.append(dict(file=D + "i32x1/native.rs", name="fv_k10_i32x1_any", code=FHEAD + horiz_flt_run("run", "I32", "i32", 1, 4, W_SMOOTH_SHARPEN, CHK_I32) + """
@@ -398,8 +401,9 @@ def add_vert_flt(file, name, pix, comp, nch, dw, unwind, bound, claim, functions
     n = (dw + 1) * nch
     grids = [grid(comp, 3, n, 5 + nch), grid(comp, 3, n, 41 + nch)]
     if comp == "f32":
+        grids.pop()
         grids.append("[" + ", ".join("[" + ", ".join(SPECIAL_F32[(i * 3 + r + nch) % len(SPECIAL_F32)] for i in range(n)) + "]" for r in range(3)) + "]")
-    calls = "\n".join("        run(%s, &n, %d);" % (g, o) for g in grids for o in (0, 1))
+    calls = "\n".join("        run(%s, &n, %d);" % (g, o) for (g, o) in ((grids[0], 0), (grids[1], 1)))
     MODS.append(dict(file=file, name="fv_%s" % name, code=FHEAD + vert_run(pix, comp, nch, dw, "Coefficients", cond_flt(chk)) + """
     #[kani::proof]
     #[kani::unwind(%d)]
@@ -409,7 +413,7 @@ def add_vert_flt(file, name, pix, comp, nch, dw, unwind, bound, claim, functions
 %s
     }
 """ % (unwind, name, coeffs_literal(VW), calls.replace("&n,", "n,"))))
-    H(name, bound + "; weights %s; %d CONCRETE pixel grids x column offset 0 and 1; arbitrary stale destination" % (VW, len(grids)), claim, P_FLT)
+    H(name, bound + "; weights %s; %d CONCRETE pixel grids (the first with column offset 0, the second with offset 1); arbitrary stale destination" % (VW, len(grids)), claim, P_FLT)
 
 
 add_vert_flt(D + "i32x1/native.rs", "k10_i32x1_vertical_grids", "I32", "i32", 1, 2, 6, "I32 3x3 -> 2x2",
